@@ -90,7 +90,7 @@ func TestZZVStreamIdConn(t *testing.T) {
 	g := zzvEnvInt("ZZV_G", 8)
 	m := zzvEnvInt("ZZV_M", 1000)
 	rounds := zzvEnvInt("ZZV_ROUNDS", 2)
-	f, err := os.Create(os.Getenv("ZZV_OUT"))
+	f, err := os.Create(os.Getenv("ZZV_OUT_CONN"))
 	if err != nil {
 		t.Fatal(err)
 	}
@@ -178,7 +178,7 @@ func TestZZVStreamIdConn(t *testing.T) {
 			}
 		}
 	}
-	zzvEmit("summary", map[string]any{"events": events, "rounds": rounds, "goroutines": 2 * g, "allocated": alloc, "zero": zero,
+	zzvEmit("summary", map[string]any{"test": "conn", "events": events, "rounds": rounds, "goroutines": 2 * g, "allocated": alloc, "zero": zero,
 		"dup_per_end": dup, "parity_bad": parity, "cross_end": cross, "gaps": gaps, "role_bad": roleBad, "samples": samples,
 		"transport": "ws-plaintext-loopback"})
 }
@@ -268,7 +268,7 @@ func TestZZVStreamIdConnReplay(t *testing.T) {
 // ends are closed and asked for more identifiers (close-then-allocate).
 func TestZZVStreamIdFresh(t *testing.T) {
 	fresh := zzvEnvInt("ZZV_FRESH", 3000)
-	g := zzvEnvInt("ZZV_G", 6)
+	g := zzvEnvInt("ZZV_FRESH_G", 6)
 	realEvery := zzvEnvInt("ZZV_REAL_EVERY", 60)
 	f, err := os.Create(os.Getenv("ZZV_OUT"))
 	if err != nil {
